@@ -86,3 +86,21 @@ Theorem C04_the_code_records_iff_allowed :
   if gen_can_trigger fc fp ws we cnt lastf ts then ((cnt + 1, ts), true) else ((cnt, lastf), false).
 Proof. exact code_try_trigger. Qed.
 Print Assumptions C04_the_code_records_iff_allowed.
+
+(* the settings as coded (LocationAction.__get_int, fire_count, fire_period translated from /repo/src): the model's mk_lim, and
+   a setting that is absent or not a decimal integer falls back to 1 fire / 1000 ms *)
+Theorem C04_the_code_settings_are_the_model :
+  forall c a b,
+  gen_fire_count c = fc (mk_lim (alookup [102;105;114;101;95;99;111;117;110;116] c) (alookup [102;105;114;101;95;112;101;114;105;111;100] c) a b) /\
+  gen_fire_period c = fp (mk_lim (alookup [102;105;114;101;95;99;111;117;110;116] c) (alookup [102;105;114;101;95;112;101;114;105;111;100] c) a b).
+Proof. exact tie_settings. Qed.
+Print Assumptions C04_the_code_settings_are_the_model.
+
+Theorem C04_the_code_defaults :
+  forall c,
+  (alookup [102;105;114;101;95;99;111;117;110;116] c = None \/
+   (exists s, alookup [102;105;114;101;95;99;111;117;110;116] c = Some (AText s) /\ parse_int s = None) -> gen_fire_count c = 1) /\
+  (alookup [102;105;114;101;95;112;101;114;105;111;100] c = None \/
+   (exists s, alookup [102;105;114;101;95;112;101;114;105;111;100] c = Some (AText s) /\ parse_int s = None) -> gen_fire_period c = 1000).
+Proof. exact code_defaults. Qed.
+Print Assumptions C04_the_code_defaults.
